@@ -117,6 +117,8 @@ class C09(fw.Prop):
         if op == "parse":
             data = bytes.fromhex(d["data"])
             k = d["parser"]
+            if d.get("ba"):
+                data = bytearray(data)          # (what the connection hands to the parsers: its receive buffer is a bytearray)
             return fw.Case(f"hdlc parse {k} {fw.hx(data)}", lambda: parse_with(k, data), d.get("kind", "model"), d,
                            tags=("parse-" + d.get("tag", "other"),))
         if op == "parse-seq":
@@ -212,6 +214,7 @@ class C09(fw.Prop):
                     continue
                 if kind != "snrm":
                     yield mk({"op": "parse", "parser": kind, "data": data.hex(), "kind": "prop", "tag": "roundtrip-stations"})
+                    yield mk({"op": "parse", "parser": kind, "data": data.hex(), "kind": "prop", "tag": "roundtrip-bytearray", "ba": True})
         # frames parsed one after the other whose address fields share their first bytes: each gets its own addresses
         for kind in ("i", "rr", "ui", "ua", "disc"):
             seqs = []
@@ -252,6 +255,16 @@ class C09(fw.Prop):
             for L in (2047 - fixed, 2047 - fixed + 1, 3000):
                 yield mk({"op": "ser", "kind": kind, "dst": c, "src": s, "ssn": 0, "rsn": 0, "final": 1, "seg": 0,
                           "payload": (b"\x5a" * L).hex()})
+        for srv in (("s", 1, 300), ("s", 300, 17), ("s", 16383, 16383), ("s", 1, 17), ("s", 1, None)):
+            for kind in ("i", "ui", "ua"):
+                for L in (2028, 2029, 2030, 2031):
+                    payload = bytes((i * 11 + L) % 256 for i in range(L))
+                    yield mk({"op": "ser", "kind": kind, "dst": c, "src": srv, "ssn": 0, "rsn": 0, "final": 1, "seg": 0, "payload": payload.hex()})
+                    try:
+                        data = self.impl_bytes(kind, c, srv, 0, 0, 1, 0, payload)
+                    except Exception:
+                        continue
+                    yield mk({"op": "parse", "parser": kind, "data": data.hex(), "kind": "prop", "tag": "roundtrip-longest", "ba": bool(L % 2)})
         for ssn, rsn in ((8, 0), (0, 8), (9, 9)):
             yield mk({"op": "ser", "kind": "i", "dst": c, "src": s, "ssn": ssn, "rsn": rsn, "final": 1, "seg": 0, "payload": "01"})
         yield mk({"op": "ser", "kind": "rr", "dst": c, "src": s, "ssn": 0, "rsn": 8, "final": 1, "seg": 0, "payload": ""})
